@@ -132,3 +132,68 @@ DRIVERS = [
            rule='5 acyclic models (chain, ranges, defined names for a cell / a range / an output, two sheets with a $ reference, dependency depth 4) x every non-empty focus subset of their cells and names (quick: all subsets up to 2 elements + 40 larger ones per model) x {no change, every input changed in both models by address, ... through its defined name}: closure, equal values of every focused item, original unchanged',
            bound='models of <= 6 cells'),
 ]
+
+
+# ---- seeded random acyclic models (thorough tier: many) -------------------------------------------------------------------------------------
+def cases_random(tier, seed):
+    from drivers.gen_models import gen_model
+    rng = random.Random(seed * 7 + 13)
+    n = 40 if tier == 'quick' else 1500
+    for i in range(n):
+        ms = seed * 100000 + i
+        m = gen_model(ms)
+        items = [a for a in m['cells'] if isinstance(m['cells'][a], str) and m['cells'][a].startswith('=')] + list(m['names'])
+        if not items:
+            continue
+        for _ in range(3):
+            k = rng.randrange(1, min(3, len(items)) + 1)
+            focus = rng.sample(items, k)
+            ch = [[a, rng.choice([11, -2.5, 0, 4])] for a in m['inputs'] if rng.random() < 0.6]
+            yield dict(mseed=ms, focus=focus, changes=ch, by_name=rng.random() < 0.5)
+
+
+def oracle_random(c):
+    import xlcalculator
+    from xlcalculator import ModelCompiler
+    from drivers.common import build_model, observe
+    from drivers.gen_models import gen_model, closure
+    m = gen_model(c['mseed'])
+    try:
+        model = build_model(dict(m['cells']), m['names'] or None)
+        before = snapshot(model)
+        sub = ModelCompiler.extract(model, focus=c['focus'])
+        after = snapshot(model)
+    except Exception as ex:      # noqa
+        return False, 'extraction succeeds', f'raise {type(ex).__name__}: {str(ex)[:160]}'
+    if before != after:
+        return False, 'the original model is unchanged by extraction', 'changed'
+    need = closure(m, c['focus'])
+    missing = sorted(need - set(sub.cells))
+    if missing:
+        return False, f'extracted model contains the focus and all it depends on ({sorted(need)})', f'missing {missing}'
+    ev_full, ev_sub = xlcalculator.Evaluator(model), xlcalculator.Evaluator(sub)
+    rev = {t.replace('$', '').replace("'", ''): n for n, t in m['names'].items() if ':' not in t}
+    for addr, v in c['changes']:
+        if addr in need:
+            how = rev[addr] if (c.get('by_name') and addr in rev and rev[addr] in sub.defined_names) else addr
+            ev_full.set_cell_value(how, v)
+            ev_sub.set_cell_value(how, v)
+    for f in c['focus']:
+        if f in m['names'] and ':' in m['names'][f]:
+            continue                                   # a range name cannot be evaluated as a cell (ValueError in both models)
+        try:
+            a = observe(ev_full.evaluate(f))
+        except Exception as ex:      # noqa
+            a = ('raise', type(ex).__name__)
+        try:
+            b = observe(ev_sub.evaluate(f))
+        except Exception as ex:      # noqa
+            b = ('raise', type(ex).__name__)
+        if a != b:
+            return False, f'{f}: {a} as in the full model', b
+    return True, 'same values', 'ok'
+
+
+DRIVERS.append(Driver('C13/B4.random', cases_random, oracle_random, nchunks=8,
+                      rule='seeded random acyclic models (1-3 sheets incl. a quoted one, constants of every type with holes, 3-8 formulas over cells / ranges / a cell name / a range name, $ references) x 3 random focus lists x random input changes (by address or through the name): closure against the generator\'s own dependency table, equal values of every focused item, original unchanged',
+                      bound='40 (quick) / 1500 (thorough) models'))
